@@ -86,6 +86,51 @@ def close(x, y, tol=1e-4):
     return x == y
 
 
+def env_step_oracle(rep, scenario, state, act, fake_rand, draws):
+    """native evaluation of the environment-level clauses (C05 reward, C06 done/limit/counter, C13 purity/agreement)
+    on the real NASimEnv for the inputs of the counterexample"""
+    import numpy as np
+    import copy
+    from nasim.envs.environment import NASimEnv
+    import nasim.scenarios.utils as u
+    scenario.scenario_dict[u.STEP_LIMIT] = rep.get("step_limit")
+    env = NASimEnv(scenario, fully_obs=rep["modes"]["fully_obs"], flat_actions=True, flat_obs=rep["modes"]["flat_obs"])
+    from nasim.envs.host_vector import HostVector
+    HostVector.reset()
+    h0 = scenario.hosts[tuple(rep["scenario"]["addrs"][0])]
+    HostVector._initialize(tuple(rep["scenario"]["bounds"]), h0.services, h0.os, h0.processes)
+    env.current_state = state
+    env.steps = rep["steps0"]
+    d0 = list(rep.get("draws") or [0.5])
+    bad = []
+    # generative step first (must be pure), with the same draw
+    draws[:] = list(d0)
+    before_T = state.tensor.copy()
+    before_steps, before_cur, before_obs = env.steps, env.current_state, env.last_obs
+    before_obs_T = env.last_obs.tensor.copy()
+    ns, gobs, grew, gdone, ginfo = env.generative_step(state, act)
+    if not np.array_equal(state.tensor, before_T): bad.append("C13.pure: generative_step modified its input state")
+    if env.steps != before_steps or env.current_state is not before_cur or env.last_obs is not before_obs \
+       or not np.array_equal(env.last_obs.tensor, before_obs_T):
+        bad.append("C13.pure: generative_step modified the environment")
+    if np.shares_memory(ns.tensor, state.tensor): bad.append("C13.fresh: next state shares storage with its input")
+    goal = all(ns.get_host(a).access >= 2 for a in scenario.sensitive_addresses)
+    if bool(gdone) != bool(goal): bad.append("C06.done: terminal flag differs from goal predicate of the next state")
+    if abs(float(grew) - (float(ginfo["value"]) - float(act.cost))) > 1e-6: bad.append("C05.reward: reward != value - cost")
+    # now the real step with the same draw
+    draws[:] = list(d0)
+    o, rew, done, lim, info = env.step(act)
+    if abs(float(rew) - float(grew)) > 1e-6 or bool(done) != bool(gdone):
+        bad.append("C13.agrees: step and generative_step disagree on reward/terminal flag")
+    if not np.array_equal(env.current_state.tensor, ns.tensor): bad.append("C13.installs: current state is not the generative next state")
+    if env.steps != rep["steps0"] + 1: bad.append("C06.counter: step counter not incremented by one")
+    want_lim = rep.get("step_limit") is not None and rep["steps0"] + 1 >= rep["step_limit"]
+    if bool(lim) != bool(want_lim): bad.append(f"C06.limit-flag: flag {lim} but steps={rep['steps0'] + 1} limit={rep.get('step_limit')}")
+    exp_shape = gobs.numpy_flat().shape if rep["modes"]["flat_obs"] else gobs.numpy().shape
+    if tuple(o.shape) != tuple(exp_shape): bad.append("C10: observation shape")
+    return {"clause_failures": bad}
+
+
 def result_dict(res):
     out = {k: bool(getattr(res, k)) for k in ("success", "connection_error", "permission_error", "undefined_error")}
     out["value"] = float(res.value)
@@ -145,6 +190,24 @@ def run(rep):
                 osn, srvn, procn = names(sc)
                 actual["result"] = bool(net.traffic_permitted(state, tuple(rep["host_addr"]), srvn[rep["service"]]))
                 actual["input_tensor_after"] = state.tensor.tolist()
+            elif h == "state_get_observation":
+                from nasim.envs.action import ActionResult
+                r = rep["result"]
+                pa = lambda d: {tuple(int(x) for x in k.split(",")): v for k, v in d.items()}
+                res = ActionResult(r["success"], r["value"], discovered=pa(r.get("discovered", {})),
+                                   newly_discovered=pa(r.get("newly_discovered", {})),
+                                   connection_error=r["connection_error"], permission_error=r["permission_error"],
+                                   undefined_error=r["undefined_error"])
+                obs = state.get_observation(act, res, rep["fully_obs"])
+                actual["obs_tensor"] = obs.tensor.tolist()
+                actual["obs_dtype"] = str(obs.tensor.dtype)
+            elif h == "hv_observe":
+                from nasim.envs.host_vector import HostVector
+                vec = np.array(rep["vector"], dtype=np.float32)
+                o = HostVector(vec).observe(**rep["switches"])
+                actual["obs_vector"] = [float(x) for x in o]
+            elif h == "env_step":
+                actual.update(env_step_oracle(rep, scenario, state, act, fake_rand, draws))
             elif h == "net_goal":
                 actual["result"] = bool(net.all_sensitive_hosts_compromised(state))
                 actual["input_tensor_after"] = state.tensor.tolist()
@@ -157,6 +220,14 @@ def run(rep):
     actual["draws_used"] = calls["n"]
     pred = rep.get("predicted", {})
     mism = []
+    if h == "env_step":
+        # clause-level native oracle: reproduced iff some environment-level clause fails on the real code
+        fails = actual.get("clause_failures", [])
+        if actual.get("exception"):
+            fails = fails + [f"raised {actual['exception']}"]
+        return {"tree": tree, "nasim_file": nasim_file, "reproduced": bool(fails),
+                "mismatches": [] if fails else ["every environment-level clause holds on the real code for this input"],
+                "clause_failures": fails, "actual": actual}
     for k, v in pred.items():
         if k not in actual:
             continue
